@@ -126,6 +126,20 @@ func main() {
 					res.Counters["shared-filters-with-prior-batch-call"]++
 				}
 			}
+			// relation argument slices shared between goroutines (callers may well reuse one []ecs.Relation): built by
+			// component type (ecs.Rel[T]), which the library resolves lazily on first use
+			sharedRels := map[int][]ecs.Relation{}
+			sharedQ := map[int][]eng.RelT{}
+			for pi, pe := range panel {
+				if pe.tf == nil {
+					continue
+				}
+				if qr := g.QRelsFor(pe.spec, 100); len(qr) > 0 {
+					sharedQ[pi] = qr
+					sharedRels[pi] = d.Rels(qr, d.FilterOrder(pe.spec), 0)
+				}
+			}
+			res.Counters["shared-relation-argument-slices"] += int64(len(sharedRels))
 			// per-goroutine plans are drawn sequentially (the generator is not thread-safe)
 			type step struct {
 				pi     int // panel index or -1 for a private filter
@@ -135,6 +149,7 @@ func main() {
 				mode   int
 				tf     typed.TFilter
 				uf     ecs.UnsafeFilter
+				rels   []ecs.Relation // non-nil: pass this (shared) slice instead of building one
 			}
 			plans := make([][]step, G)
 			for gi := 0; gi < G; gi++ {
@@ -155,6 +170,10 @@ func main() {
 						}
 					}
 					s.qrels = g.QRelsFor(s.spec, 40)
+					if s.pi >= 0 && sharedRels[s.pi] != nil && g.R.Chance(60) {
+						s.qrels = sharedQ[s.pi]
+						s.rels = sharedRels[s.pi]
+					}
 					s.expect = m.Select(s.spec, s.qrels)
 					s.mode = g.R.Intn(5)
 					plans[gi] = append(plans[gi], s)
@@ -164,6 +183,10 @@ func main() {
 					pi := 6 + (gi+k*3)%9
 					s := step{pi: pi, spec: panel[pi].spec, tf: panel[pi].tf, mode: g.R.Intn(5)}
 					s.qrels = g.QRelsFor(s.spec, 70)
+					if sharedRels[pi] != nil && g.R.Chance(70) {
+						s.qrels = sharedQ[pi]
+						s.rels = sharedRels[pi]
+					}
 					s.expect = m.Select(s.spec, s.qrels)
 					// put it first for some goroutines so that first uses collide
 					if gi%2 == 0 {
@@ -206,7 +229,7 @@ func main() {
 						}
 						order := d.FilterOrder(s.spec)
 						hold := holdAll && si == 0
-						n, errs := runQuery(d, m, tf, uf, s.spec, s.qrels, order, want, s.mode, gi, G, hold, &opened, release)
+						n, errs := runQuery(d, m, tf, uf, s.spec, s.qrels, s.rels, order, want, s.mode, gi, G, hold, &opened, release)
 						nq++
 						nv += int64(n)
 						local = append(local, errs...)
@@ -293,14 +316,18 @@ func main() {
 
 // runQuery runs one query from one goroutine and compares it with the expectation. Only goroutine-local
 // state is written; component values are only read (and written) for entities of this goroutine's partition.
-func runQuery(d *eng.Drv, m *eng.Model, tf typed.TFilter, uf ecs.UnsafeFilter, spec *eng.FSpec, qrels []eng.RelT, order []int,
+func runQuery(d *eng.Drv, m *eng.Model, tf typed.TFilter, uf ecs.UnsafeFilter, spec *eng.FSpec, qrels []eng.RelT, shared []ecs.Relation, order []int,
 	want map[ecs.Entity]int, mode, gi, G int, hold bool, opened *sync.WaitGroup, release chan struct{}) (int, []string) {
 	var errs []string
 	seen := map[ecs.Entity]int{}
 	n := 0
 	style := gi % 3
 	if tf != nil {
-		q := tf.Query(d.Rels(qrels, order, style))
+		args := shared
+		if args == nil {
+			args = d.Rels(qrels, order, style)
+		}
+		q := tf.Query(args)
 		if hold {
 			opened.Done()
 			<-release
